@@ -295,8 +295,9 @@ Proof.
     destruct (read_rest_app c06_rfbTextChat c06_sz_TextChat j _ _ B0 eq_refl) as (j' & R & B' & E').
     rewrite (bind_ok _ _ _ _ _ _ _ R).
     assert (Hlen : 0 <= len < two32).
-    { destruct Kt as [(_ & [ -> | [ -> | -> ] ])|(Hr & _)]; unfold two32; try (vm_compute; split; [discriminate|reflexivity]).
-      unfold c06_rfbTextMaxSize in Hr. lia. }
+    { unfold two32. destruct Kt as [(_ & Kl)|(Hr & _)].
+      - unfold c06_rfbTextChatOpen, c06_rfbTextChatClose, c06_rfbTextChatFinished in Kl. lia.
+      - unfold c06_rfbTextMaxSize in Hr. lia. }
     change c06_off_tc_length with 4. cbn [app].
     rewrite <- (app_nil_r (be32 len)). rewrite (be32_at_4 _ _ _ _ len [] Hlen). cbn [need].
     destruct Kt as [(Htx & Kl)|(Hr & Hl)]; [subst text|].
